@@ -144,8 +144,8 @@ Section Sim.
         * intros Hst. rewrite (Hsl Hst). cbn [out_pi]. exact Elast.
         * exists c, dt, k, i, ml. split; [reflexivity|exact El].
       + (* symbolic link *)
-        destruct (Nat.ltb slCountMax (S slc)); [apply Hret; discriminate|].
         destruct (pi_is_last pl1 && slmode_eqb slm SlLstat); [apply Hret; discriminate|].
+        destruct (Nat.ltb slCountMax (S slc)); [apply Hret; discriminate|].
         destruct (@pi_replace_R d Hd pw1 pl1 lw ll HR1 Hlnk) as (Hreset & HR2).
         destruct (pi_replace_part Windows pw1 lw) as [rsw pw2].
         destruct (pi_replace_part Linux pl1 ll) as [rsl pl2].
@@ -175,7 +175,7 @@ Section Sim.
     intros F V HR Hok. unfold search_node. rewrite (vr_osw V), (vr_osl V).
     destruct (@abs_W d Hd (v_cwd vw) (v_cwd vl) r Hok) as (Ha & Hoka & (r' & Hr')).
     rewrite Ha. set (q := abs Linux (v_cwd vl) (SLASH :: r)) in *.
-    assert (Hvw : pi_vnl (pi_new Windows (W q)) = 2) by (unfold pi_new; cbn [pi_vnl]; apply (vnl_W d Hd)).
+    assert (Hvw : pi_vnl (pi_new Windows (W q)) = 2) by (unfold pi_new; cbn [pi_vnl]; apply (vnl_W d)).
     assert (Hvl : pi_vnl (pi_new Linux q) = 0) by reflexivity.
     rewrite Hvw, Hvl. cbn [Nat.ltb Nat.leb].
     assert (Hvn : pi_volume_name (pi_new Windows (W q)) = vol d).
@@ -184,7 +184,7 @@ Section Sim.
     apply search_loop_sim.
     - exact (fr_heap F).
     - exact V.
-    - apply pi_new_R0; [exact Hd|exact Hoka|eauto].
+    - apply pi_new_R0; [exact Hoka|eauto].
     - intros E. exfalso. exact (SEARCH_FUEL_pos E).
     - constructor.
     - reflexivity.
